@@ -225,4 +225,132 @@ theorem roundNE_tie_even' (p n : Nat) (hl : p < bitLen n)
   · rename_i h; simp only; omega
   · rename_i h; simp only; omega
 
+/-! ### the IEEE encoding decodes to the rounded value -/
+
+theorem bitLen_pos {m : Nat} (hm0 : m ≠ 0) : 1 ≤ bitLen m := by simp [bitLen, hm0]
+
+/-- `m ≥ 2^(p-1)` has at least `p` significant bits; `m ≤ 2^p` at most `p + 1` -/
+theorem bitLen_ge_of_le {p m : Nat} (h : 2 ^ (p - 1) ≤ m) (hp : 1 ≤ p) : p ≤ bitLen m := by
+  have hm0 : m ≠ 0 := by have := Nat.two_pow_pos (p - 1); omega
+  have h2 := (bitLen_bounds m hm0).2
+  have : 2 ^ (p - 1) < 2 ^ bitLen m := Nat.lt_of_le_of_lt h h2
+  have := (Nat.pow_lt_pow_iff_right (by decide : 1 < 2)).1 this
+  omega
+
+theorem bitLen_le_succ_of_le {p m : Nat} (hm0 : m ≠ 0) (h : m ≤ 2 ^ p) : bitLen m ≤ p + 1 := by
+  have h1 := (bitLen_bounds m hm0).1
+  have : 2 ^ (bitLen m - 1) ≤ 2 ^ p := Nat.le_trans h1 h
+  have := (Nat.pow_le_pow_iff_right (by decide : 1 < 2)).1 this
+  omega
+
+theorem normSig_range (p m : Nat) (hp : 1 ≤ p) (hm0 : m ≠ 0) (hm : m ≤ 2 ^ p) :
+    2 ^ (p - 1) ≤ normSig p m ∧ normSig p m < 2 ^ p := by
+  obtain ⟨hlo, hhi⟩ := bitLen_bounds m hm0
+  have hl1 := bitLen_pos hm0
+  unfold normSig
+  split
+  · rename_i hl
+    constructor
+    · have : 2 ^ (p - 1) = 2 ^ (bitLen m - 1) * 2 ^ (p - bitLen m) := by
+        rw [← Nat.pow_add]; congr 1; omega
+      rw [this]; exact Nat.mul_le_mul_right _ hlo
+    · have : 2 ^ p = 2 ^ bitLen m * 2 ^ (p - bitLen m) := by
+        rw [← Nat.pow_add]; congr 1; omega
+      rw [this]; exact Nat.mul_lt_mul_of_pos_right hhi (Nat.two_pow_pos _)
+  · rename_i hl
+    have hl' : bitLen m = p + 1 := by have := bitLen_le_succ_of_le hm0 hm; omega
+    have hmeq : m = 2 ^ p := by
+      have : 2 ^ p ≤ m := by rw [hl'] at hlo; simpa using hlo
+      omega
+    rw [hl', hmeq]
+    have : p + 1 - p = 1 := by omega
+    rw [this]
+    have hpp : 2 ^ p = 2 ^ (p - 1) * 2 := by
+      rw [← Nat.pow_succ]; congr 1; omega
+    rw [hpp]; simp
+    have := Nat.two_pow_pos (p - 1)
+    omega
+
+/-- `normSig`/`normExp` denote the same value as `(m, e)`: either the significand was shifted
+    left and the exponent lowered, or (only for `m = 2^p`) halved exactly and the exponent raised -/
+theorem norm_same_value' (p m e : Nat) (hp : 1 ≤ p) (hm0 : m ≠ 0) (hm : m ≤ 2 ^ p) :
+    (bitLen m ≤ p ∧ normSig p m = m * 2 ^ (p - bitLen m) ∧
+        normExp p m e = (e : Int) - ((p - bitLen m : Nat) : Int)) ∨
+    (bitLen m = p + 1 ∧ m = normSig p m * 2 ∧ normExp p m e = (e : Int) + 1) := by
+  by_cases hl : bitLen m ≤ p
+  · left; simp [normSig, normExp, hl]
+  · right
+    have hl' : bitLen m = p + 1 := by have := bitLen_le_succ_of_le hm0 hm; omega
+    have hlo := (bitLen_bounds m hm0).1
+    have hmeq : m = 2 ^ p := by
+      have : 2 ^ p ≤ m := by rw [hl'] at hlo; simpa using hlo
+      omega
+    have hpp : 2 ^ p = 2 ^ (p - 1) * 2 := by
+      rw [← Nat.pow_succ]; congr 1; omega
+    have hone : bitLen m - p = 1 := by omega
+    refine ⟨hl', ?_, ?_⟩
+    · have hsig : normSig p m = m / 2 ^ (bitLen m - p) := by simp [normSig, hl]
+      rw [hsig, hone, hmeq, hpp]; simp
+    · have hexp : normExp p m e = (e : Int) + ((bitLen m - p : Nat) : Int) := by simp [normExp, hl]
+      rw [hexp, hone]; simp
+
+theorem floatBits_decode' (p ebits m e : Nat) (hp : 1 ≤ p) (hm0 : m ≠ 0) (hm : m ≤ 2 ^ p)
+    (hnormal : 1 ≤ normExp p m e + ((p - 1 : Nat) : Int) + (2 ^ (ebits - 1) - 1)) :
+    floatDecode p ebits (floatBits p ebits (m, e)) = (normSig p m, normExp p m e) := by
+  obtain ⟨hlo, hhi⟩ := normSig_range p m hp hm0 hm
+  have hbits : floatBits p ebits (m, e) =
+      (normExp p m e + ((p - 1 : Nat) : Int) + (2 ^ (ebits - 1) - 1)).toNat * 2 ^ (p - 1)
+        + (normSig p m - 2 ^ (p - 1)) := by
+    simp [floatBits, hm0]
+  rw [hbits]
+  generalize hB : (normExp p m e + ((p - 1 : Nat) : Int) + (2 ^ (ebits - 1) - 1)).toNat = B
+  have hB1 : 1 ≤ B := by omega
+  have hBint : (B : Int) = normExp p m e + ((p - 1 : Nat) : Int) + (2 ^ (ebits - 1) - 1) := by omega
+  have hK : 0 < 2 ^ (p - 1) := Nat.two_pow_pos _
+  have hpp : 2 ^ p = 2 ^ (p - 1) * 2 := by
+    rw [← Nat.pow_succ]; congr 1; omega
+  have hf : normSig p m - 2 ^ (p - 1) < 2 ^ (p - 1) := by omega
+  have hdiv : (B * 2 ^ (p - 1) + (normSig p m - 2 ^ (p - 1))) / 2 ^ (p - 1) = B := by
+    rw [Nat.add_comm, Nat.add_mul_div_right _ _ hK, Nat.div_eq_of_lt hf]; simp
+  have hmod : (B * 2 ^ (p - 1) + (normSig p m - 2 ^ (p - 1))) % 2 ^ (p - 1) =
+      normSig p m - 2 ^ (p - 1) := by
+    rw [Nat.add_comm, Nat.add_mul_mod_self_right, Nat.mod_eq_of_lt hf]
+  unfold floatDecode
+  simp only [hdiv, hmod]
+  have : B ≠ 0 := by omega
+  simp only [this, if_false]
+  refine Prod.ext ?_ ?_
+  · simp; omega
+  · simp; omega
+
+/-- significand of a rounding result: non-zero, at most `2^p`; and the position of its leading bit -/
+theorem roundNE_sig (p n : Nat) (hp : 1 ≤ p) (hn : n ≠ 0) :
+    (roundNE p n).1 ≠ 0 ∧ (roundNE p n).1 ≤ 2 ^ p ∧
+      (bitLen n : Int) - 1 ≤ normExp p (roundNE p n).1 (roundNE p n).2 + ((p - 1 : Nat) : Int) ∧
+      normExp p (roundNE p n).1 (roundNE p n).2 + ((p - 1 : Nat) : Int) ≤ (bitLen n : Int) := by
+  unfold roundNE
+  by_cases hl : bitLen n ≤ p
+  · simp only [hl, if_true]
+    have hb := bitLen_bounds n hn
+    have h1 := bitLen_pos hn
+    refine ⟨hn, ?_, ?_, ?_⟩
+    · exact Nat.le_of_lt (Nat.lt_of_lt_of_le hb.2 (Nat.pow_le_pow_right (by decide) hl))
+    · simp only [normExp, hl, if_true]; omega
+    · simp only [normExp, hl, if_true]; omega
+  simp only [hl, if_false]
+  obtain ⟨hs1, _, _, _, _, hq, hq2, _⟩ := round_setup p n hp hl
+  have hsl : bitLen n - p + p = bitLen n := by omega
+  generalize hs : bitLen n - p = s at *
+  have key : ∀ m, 2 ^ (p - 1) ≤ m → m ≤ 2 ^ p →
+      m ≠ 0 ∧ m ≤ 2 ^ p ∧ (bitLen n : Int) - 1 ≤ normExp p m s + ((p - 1 : Nat) : Int) ∧
+        normExp p m s + ((p - 1 : Nat) : Int) ≤ (bitLen n : Int) := by
+    intro m hlo hhi
+    have hm0 : m ≠ 0 := by have := Nat.two_pow_pos (p - 1); omega
+    have h1 := bitLen_ge_of_le hlo hp
+    have h2 := bitLen_le_succ_of_le hm0 hhi
+    refine ⟨hm0, hhi, ?_, ?_⟩ <;> (unfold normExp; split <;> omega)
+  split
+  · exact key _ (by omega) (by omega)
+  · exact key _ hq (by omega)
+
 end EasyMl.Num
